@@ -95,16 +95,16 @@ Definition ss_transpose (x : coo Z) (axes : list Z) : coo Z :=
     let es := sort_entries (combine (map (fun ix => map (znth ix) axes) (c_coords x)) (c_data x)) in
     mkCOO (map (znth (c_shape x)) axes) (map fst es) (map snd es) (c_fill x).
 
-(* COO.reshape(shape): identity shortcut, -1 inference through a float division
-   (0/0 = NaN -> ValueError from int(); n/0 = inf -> OverflowError), size check, linear relocation *)
+(* COO.reshape(shape): identity shortcut, -1 inference in integer arithmetic (ValueError when the
+   known extents multiply to 0 or do not divide the size), size check, linear relocation *)
 Definition ss_reshape (x : coo Z) (shape : list Z) : res (coo Z) :=
   if idx_eqb (c_shape x) shape then Ok x
   else
     let sz := size (c_shape x) in
     shape' <- (if existsb (Z.eqb (-1)) shape then
-                 let p := size (filter (fun d => negb (d =? -1)) shape) in
-                 if p =? 0 then (if sz =? 0 then Raise ValueError else Raise OverflowError)
-                 else Ok (map (fun d => if d =? -1 then sz / p else d) shape)
+                 let known := size (filter (fun d => negb (d =? -1)) shape) in
+                 if (known =? 0) || negb (sz mod known =? 0) then Raise ValueError
+                 else Ok (map (fun d => if d =? -1 then sz / known else d) shape)
                else Ok shape) ;;
     if negb (sz =? size shape') then Raise ValueError
     else Ok (mkCOO shape' (map (fun ix => unravel shape' (ravel (c_shape x) ix)) (c_coords x))
@@ -217,15 +217,8 @@ Definition ss_unique_values (x : coo Z) : list Z :=
   let values := np_unique (c_data x) in
   if zlen (c_coords x) <? size (c_shape x) then np_sort (c_fill x :: values) else values.
 
-(* dst[idxs] = src  (NumPy fancy assignment, left to right) *)
-Fixpoint upd (l : list Z) (i : nat) (v : Z) : list Z :=
-  match l, i with
-  | [], _ => []
-  | _ :: r, O => v :: r
-  | x :: r, S i' => x :: upd r i' v
-  end.
-Definition scatter (idxs src dst : list Z) : list Z :=
-  fold_left (fun acc p => upd acc (Z.to_nat (fst p)) (snd p)) (combine idxs src) dst.
+(* l[idxs]  (NumPy fancy indexing with an index array) *)
+Definition gather (idxs l : list Z) : list Z := map (fun i => nth (Z.to_nat i) l 0) idxs.
 
 Definition ss_unique_counts (x : coo Z) : list Z * list Z :=
   let '(values, counts) := np_unique_counts (c_data x) in
@@ -235,8 +228,8 @@ Definition ss_unique_counts (x : coo Z) : list Z * list Z :=
     let values1 := c_fill x :: values in
     let counts1 := (sz - nnz) :: counts in
     let sorted_indices := np_argsort values1 in
-    (* values[sorted_indices] = values.copy(); counts[sorted_indices] = counts.copy() *)
-    (scatter sorted_indices values1 values1, scatter sorted_indices counts1 counts1)
+    (* values = values[sorted_indices]; counts = counts[sorted_indices] *)
+    (gather sorted_indices values1, gather sorted_indices counts1)
   else (values, counts).
 
 (* ------------------------------------------------------------------ nonzero / argwhere / where(cond) *)
